@@ -13,12 +13,13 @@ cache and only drops descriptors, which `content` does not look at).
 
 Hypotheses, all explicit:
 * `WF o0`: both content tables have one slot per inode and every directory entry refers to an
-  existing inode. `WF Os.empty` holds and `mkdirat`/`acRun` preserve it (`wf_empty`, `wf_mkdirat`,
-  `wf_preserved`).
+  existing inode. `WF Os.empty` holds, every `DirFs` method, every disturbed `acRun` and crashes
+  preserve it (`wf_empty`, `wf_mkdirat`, `reachable_wf`, `wf_preserved`).
 * `TmpNotLinked o0 n d' n'`: *if* the temporary name `n.<counter>.tmp` of this call already
   exists in the root (a leftover), its inode is not the one `d'/n'` points to (it is not a hard
   link of it). It holds in particular when the temporary name is fresh (`TmpNotLinked.of_fresh`),
-  which the unique counter provides. Leftovers under the very same temporary name are allowed
+  which the unique counter provides; it holds on every reachable state
+  (`reachable_tmp_not_linked`). Leftovers under the very same temporary name are allowed
   (`O_TRUNC` empties them). It is needed for `all_or_nothing`, `durable_before_visible`, `frame`;
   it is *not* needed for `exact_after_return`, `ok_when_undisturbed`, `leftover_harmless`.
 * `(aget o0.dirs d).isSome` (the directory exists) only where a normal return is claimed; without
@@ -37,6 +38,21 @@ open GooseVerif.Model.Fs GooseVerif.Lemmas.AtomicCreate
 theorem wf_empty : WF Os.empty := WF.empty
 
 theorem wf_mkdirat (o : Os) (d : String) (h : WF o) : WF (o.mkdirat d).1 := h.mkdirat d
+
+/-- Every reachable state (`Reach`: from the empty tree through the `DirFs` methods `Mkdir`, `Create`,
+`Append`, `Close`, `Open`, `ReadAt`, `Delete`, `Link`, `AtomicCreate`, `List`, through `AtomicCreate`
+calls disturbed in any way, and through process crashes) is well-formed. -/
+theorem reachable_wf (o : Os) (h : Reach o) : WF o := h.wf_sep.1
+
+/-- On every reachable state the files of the root (the temporary files, leftovers of interrupted
+calls included) are linked in no sub-directory, so `TmpNotLinked` holds there for every call: the
+hypothesis of `all_or_nothing`, `durable_before_visible`, `frame` is discharged on all reachable
+states (no reasoning about the text of temporary names is involved). -/
+theorem reachable_tmp_not_linked (o : Os) (h : Reach o) (n d' n' : String) : TmpNotLinked o n d' n' :=
+  h.wf_sep.2.tmpNotLinked n d' n'
+
+/-- Histories of `DirFs` operations reach reachable states. -/
+theorem run_reachable (ops : List Op) : Reach (DirFs.run Os.empty ops).1 := Reach.empty.run ops
 
 /-- Every run (however disturbed) leaves a well-formed state. -/
 theorem wf_preserved (o0 : Os) (d n : String) (data : Bytes) (dist : Disturb) (hwf : WF o0) :
@@ -172,6 +188,24 @@ theorem crash_then_retry (o0 : Os) (d n : String) (data data' : Bytes) (k : Nat)
     content (acRun (acRun o0 d n data { stopAfter := some k }).1 d n data' {}).1 d n = some data' :=
   leftover_harmless o0 d n data data' { stopAfter := some k } {} hwf hdir rfl rfl
 
+/-! ### the same, hypothesis-free, on every reachable state -/
+
+/-- All-or-nothing and durable-before-visible on every reachable state (any history of `DirFs`
+operations, interrupted `AtomicCreate` calls and crashes), for every disturbance of the call. -/
+theorem all_or_nothing_reachable (o0 : Os) (h : Reach o0) (d n : String) (data : Bytes) (dist : Disturb) :
+    (content (acRun o0 d n data dist).1 d n = content o0 d n ∨
+      content (acRun o0 d n data dist).1 d n = some data) ∧
+    (content (acRun o0 d n data dist).1 d n = some data → content o0 d n ≠ some data →
+      durableContent (acRun o0 d n data dist).1 d n = some data) :=
+  ⟨all_or_nothing o0 d n data dist (reachable_wf o0 h) (reachable_tmp_not_linked o0 h n d n),
+   durable_before_visible o0 d n data dist (reachable_wf o0 h) (reachable_tmp_not_linked o0 h n d n)⟩
+
+theorem frame_reachable (o0 : Os) (h : Reach o0) (d n : String) (data : Bytes) (dist : Disturb)
+    (d' n' : String) (hne : (d', n') ≠ (d, n)) :
+    content (acRun o0 d n data dist).1 d' n' = content o0 d' n' ∧
+    durableContent (acRun o0 d n data dist).1 d' n' = durableContent o0 d' n' :=
+  frame o0 d n data dist d' n' (reachable_wf o0 h) hne (reachable_tmp_not_linked o0 h n d' n')
+
 /-! ### non-vacuity: concrete states and runs -/
 
 /-- A root with one sub-directory `d`. -/
@@ -211,6 +245,14 @@ def s2 : Os := { (acRun s1 "d" "x" [7, 7, 7, 7, 7] { stopAfter := some 2 }).1 wi
 example : (aget s2.root (tmpName "x" s2.tmpCount)).isSome := by decide
 example : (acRun s2 "d" "x" [1, 2] {}).2 = .ok ∧
     content (acRun s2 "d" "x" [1, 2] {}).1 "d" "x" = some [1, 2] := by decide
+
+/-- `TmpNotLinked` cannot be dropped from `all_or_nothing`: if the temporary name of the call is a
+hard link of `d/x` (not reachable through `DirFs`, built here with `linkat` into the root), the
+`O_TRUNC` of `openat` already empties `d/x`. -/
+def s3 : Os := (s1.linkat (some "d") "x" none (tmpName "x" s1.tmpCount)).1
+
+example : content s3 "d" "x" = some [9] ∧
+    content (acRun s3 "d" "x" [1, 2] { stopAfter := some 1 }).1 "d" "x" = some [] := by decide
 
 /-- Missing directory: panic. -/
 example : (acRun Os.empty "d" "x" [1] {}).2 = .panic := by decide
